@@ -41,7 +41,7 @@ type dgen struct {
 	r      *rand.Rand
 	names  []string
 	hasBad bool
-	noNull bool // no null defaults (a typed map element cannot hold null: json.Unmarshal leaves the zero value)
+	noNull bool   // no null defaults (a typed map element cannot hold null: json.Unmarshal leaves the zero value)
 	sep    string // separator mode: names[2] is names[0]+sep+names[1]
 }
 
